@@ -172,6 +172,22 @@ def run(ctx):
               'the handler around literal_eval can complete normally: a malformed literal would yield some value instead of an error',
               bt.loc(h.ast), instance='handler', path=describe_path(g, esc) if esc else None)
 
+  # the token texts are the config text itself: the line reader hands lines to tokenize unchanged
+  init = ctx.func(CP + '.__init__')
+  rd = init.nested.get('_text_line_reader')
+  if rd is None:
+    raise AnalysisError('ConfigParser.__init__._text_line_reader vanished')
+  rets_r = [r.value for r in walk_local(rd.node) if isinstance(r, ast.Return) and r.value is not None]
+  assigns_r = [a for a in walk_local(rd.node) if isinstance(a, (ast.Assign, ast.AugAssign))]
+  okr = len(rets_r) == 1 and isinstance(rets_r[0], ast.Name)
+  for a in assigns_r:
+    v = u(a.value).replace(' ', '')
+    if not (isinstance(a, ast.Assign) and u(a.targets[0]) == u(rets_r[0]) and (v == 'line_reader()' or v.startswith(u(rets_r[0]) + '.decode('))):
+      okr = False
+  ctx.check(okr, 'C02.delegate', construct(rd), 'lines reach the tokenizer verbatim (only bytes are decoded)',
+            'the line reader rewrites lines before tokenizing (%s): the content of multi-line string literals (trailing blanks before a line break) '
+            'no longer equals what Python evaluates the text to' % [u(a) for a in assigns_r], rd.loc(), instance='reader-verbatim')
+
   # ---- C02.containers
   mc = ctx.func(CP + '._maybe_parse_container')
   table = None
